@@ -21,7 +21,7 @@ import ast
 from engine.cfg import call_name, cfg_of
 from engine.errors import AnalysisError
 from engine.repo import walk_no_nested
-from engine.util import calls_in, unparse
+from engine.util import calls_in, local_assignments, unparse
 
 from .c11 import index_key_attrs
 
@@ -141,6 +141,55 @@ def run(ctx):  # noqa: C901, PLR0912, PLR0915
                                            'mdib_version is one too small)' if not ok_src else
                                            f'{time_attr} is not set together with it'), fi=fi, node=n.stmt,
                witness={'source': why, 'paired_time': bool(paired)})
+
+    # the object that receives the version must be the object that is written back
+    g = cfg_of(sc)
+    for n, t in _stores(g, {'BindingMdibVersion', 'UnbindingMdibVersion', 'BindingStartTime', 'BindingEndTime'}):
+        obj = unparse(t.value)
+        br = _innermost_branch(g, n)
+        # (a) the object itself is put into the entity in this function after the store
+        put = [m for m in g.real_nodes() if m.kind == 'stmt' and isinstance(m.stmt, ast.Assign) and
+               unparse(m.stmt.targets[0]).startswith('entity.states[') and unparse(m.stmt.value) == obj
+               and g.path_exists(n, m, normal_only=True)]
+        # (b) or it is copied into the entity's object by an update that does not skip the attribute
+        cp = []
+        for m, c in g.nodes_calling('update_from_other_container'):
+            if c.args and unparse(c.args[0]) == obj and g.path_exists(n, m, normal_only=True):
+                skipped = [x.value for k in c.keywords if k.arg == 'skipped_properties' for x in ast.walk(k.value)
+                           if isinstance(x, ast.Constant)]
+                cp.append((m, t.attr not in skipped))
+        # on every path from the store to the exit one of them must happen; copies that skip the attribute do not count
+        good = put + [m for m, okc in cp if okc]
+        ok = bool(good) and g.must_pass(n, good)
+        if not ok and isinstance(t.value, ast.Name):
+            # (c) the object is the entity's own state object (entity.states.get(..) / entity.states[..]) and no later
+            #     copy into it overwrites the attribute
+            la = local_assignments(sc.node)
+            binds = [v for v in la.get(t.value.id, []) if not (isinstance(v, ast.Constant) and v.value is None)]
+            owned = bool(binds) and all(unparse(v).startswith('entity.states.get(') or unparse(v).startswith('entity.states[')
+                                        for v in binds)
+            clobber = False
+            for m, c in g.nodes_calling('update_from_other_container'):
+                if unparse(c.func.value) == obj and g.path_exists(n, m, normal_only=True):
+                    skipped = [x.value for k in c.keywords if k.arg == 'skipped_properties' for x in ast.walk(k.value)
+                               if isinstance(x, ast.Constant)]
+                    if t.attr not in skipped:
+                        clobber = True
+            ok = owned and not clobber
+        ctx.ob('C10.R2', f'_set_context_state: {unparse(t)} reaches the written state #{n.lineno and 0}'.replace(' #0', '')
+               + f' [{br.text()[:40] if br else ""}]', ok,
+               f'{unparse(t)}: the object that gets the value is the one written back to the MDIB' if ok else
+               f'{unparse(t)} is set on {obj}, but {obj} is then copied into the stored state with '
+               f'skipped_properties containing {t.attr} (or never written): the binding information of this change never '
+               f'reaches the MDIB', fi=sc, node=n.stmt)
+    # the entities the handler modifies are read inside the transaction (read-modify-write under the transaction lock)
+    reads = g.nodes_calling('by_handle')
+    withs = [n for n in g.nodes if n.kind == 'with' and 'context_state_transaction' in n.text()]
+    ok = bool(reads) and bool(withs) and all(any(w.stmt in r.withs for w in withs) for r, _ in reads)
+    ctx.ob('C10.R1', 'entities read inside the transaction', ok,
+           'the handler reads the entities it modifies inside the context_state_transaction region' if ok else
+           'the handler reads the entity snapshot before it holds the transaction lock: a context change committed in '
+           'between (e.g. set_location) is missed by disassociate_all and two states end up associated', fi=sc)
 
     # ------------------------------------------------------------------ R3
     for q, skip_expect in ((f'{TR}.ContextStateTransaction.disassociate_all',
@@ -269,6 +318,9 @@ SEEDS = [
     seed('double association checked inside the transaction', 'C10.R4',
          (_C, "        for handle, states in proposed_by_handle.items():\n            if len(states) > 1:\n                msg = f'more than one associated context for descriptor handle {handle}'\n                raise ValueError(msg)\n\n        operation_target_handles = []",
           "        for handle, states in proposed_by_handle.items():\n            if len(states) > 2:\n                msg = f'more than one associated context for descriptor handle {handle}'\n                raise ValueError(msg)\n\n        operation_target_handles = []")),
+    seed('handler takes the entity snapshot before the transaction', 'C10.R1',
+         (_C, "        with self._mdib.context_state_transaction() as mgr:\n            for proposed_st in proposed_context_states:\n                entity = self._mdib.entities.by_handle(proposed_st.DescriptorHandle)\n",
+          "        snapshots = {st.DescriptorHandle: self._mdib.entities.by_handle(st.DescriptorHandle) for st in proposed_context_states}\n        with self._mdib.context_state_transaction() as mgr:\n            for proposed_st in proposed_context_states:\n                entity = snapshots[proposed_st.DescriptorHandle]\n")),
     seed('mk_context_state accepts an existing state handle', 'C10.R5',
          (_T, "            if old_state_container is not None:\n                msg = f'ContextState with handle={context_state_handle} already exists'\n                raise ValueError(msg)\n", "")),
     seed('new_entity checks descriptors only', 'C10.R5',
